@@ -668,6 +668,12 @@ class SmtLibParser(object):
            not right.is_zero():
             return mgr.Real(Fraction(left.constant_value()) /
                             Fraction(right.constant_value()))
+        if self.get_type(left).is_int_type() and \
+           self.get_type(right).is_int_type():
+            # Not a constant: this would silently be read as the
+            # integer division
+            raise PysmtTypeError("'/' is defined on Real terms only, "
+                                 "use 'div' on Int terms")
         return self.Div(left, right)
 
     def _int_division(self, left: FNode, right: FNode) -> FNode:
